@@ -1,5 +1,6 @@
 """C01 — evaluation agrees with the language semantics: structural clauses R01a, R01c, R01d, R01e, R01f."""
 from ..facts import callee, op_const, op_place, short_path
+from .. import shapes
 from .common import *
 from . import tables, twins, C04, prelude
 
@@ -428,6 +429,147 @@ def r01m(ctx, rep, rule="R01m"):
         rep.ok(rule, "%s|none" % rule, "no function buffers popped operands and pushes them back (apply shifts in place)", nontrivial=False)
 
 
+TEMPLATE_WALKERS = [
+    # (walker, the function that treats an unquoted expression, what it does)
+    (COMPILE + "compile_quasiquote", COMPILE_EXPR, "compiles"),
+    (COMPILE + "transform_template", COMPILE + "transform", "macro-expands"),
+    ("marwood::vm::environment::find_free_symbols_in_template", "marwood::vm::environment::find_free_symbols", "scope-analyses"),
+]
+
+
+def _natural_loops(f):
+    out = []
+    for u, h in f.back_edges():
+        body = set(f.reach_back(u, avoid=[h])) | {h, u}
+        out.append((h, body))
+    return out
+
+
+def r01n(ctx, rep, rule="R01n", only=None):
+    """sibling agreement of the three walks over a quasiquote template"""
+    facts = ctx["facts"]
+    rep.rule(rule, "the three walks over a quasiquote template — the compiler that builds it, the macro expander and the "
+             "free-variable scan — agree on its grammar: each (1) treats an unquoted expression only under an is_unquote "
+             "test and a nesting-depth-is-zero test, (2) raises the depth under an is_quasiquote test and lowers it on the "
+             "non-zero unquote edge, (3) descends into both container variants (Pair and Vector), and (4) tests for "
+             "unquote at every position of the cdr chain it walks (`(a . ,b) reads as (a unquote b)). A walk that "
+             "differs from its siblings leaves code the compiler runs unexpanded or unscanned, or evaluates what a "
+             "sibling treats as data.")
+    cell = facts.adts.get("marwood::cell::Cell")
+    if cell is None:
+        rep.anchor_lost(rule, "ADT marwood::cell::Cell not found")
+        return
+    vidx = {n: variant_index(cell, n) for n in ("Pair", "Vector")}
+    for w, ev, verb in TEMPLATE_WALKERS:
+        if only and not any(w.endswith(x) for x in only):
+            continue
+        f = need(rep, rule, facts, w)
+        if f is None:
+            continue
+        name = short_path(w).split("::")[-1]
+        span = [f.span]
+        calls = list(f.calls())
+        feeds = [bb for bb, t in calls if callee(t) == w or (callee(t) or "").endswith("Vec::<T, A>::push")
+                 or re.search(r"Vec<.*> as std::iter::Extend<.*>>::extend$", callee(t) or "")]
+        evals = [bb for bb, t in calls if callee(t) == ev]
+        guards = {bb: shapes.guard_shapes(f, bb, None, depth=3) for bb in set(feeds) | set(evals)}
+        # (1) evaluator only under unquote + depth zero
+        key = "%s|%s|unquote-at-depth-zero" % (rule, name)
+        if not evals:
+            rep.fail(rule, key, "%s never hands an unquoted expression to %s: unquoted code is not %s" % (
+                name, short_path(ev), verb.replace("s", "d", 1) if False else verb), span)
+        else:
+            bad = []
+            for bb in evals:
+                g = guards[bb]
+                unq = any("is_unquote(" in x and x.endswith("=T") for x in g)
+                zero = any(re.match(r"\(Eq \S+ c:0\)=T$", x) for x in g)
+                if not (unq and zero):
+                    bad.append((bb, "no is_unquote test" if not unq else "no depth == 0 test"))
+            if bad:
+                rep.fail(rule, key, "%s %s an expression of the template with %s on the path (%d of %d sites): "
+                         "an unquote nested inside an inner quasiquote belongs to that inner template and is data at this "
+                         "level" % (name, verb, bad[0][1], len(bad), len(evals)),
+                         [loc_of(f, bad[0][0])])
+            else:
+                rep.ok(rule, key, "%s %s template expressions only under is_unquote and depth == 0 (%d site%s)" % (
+                    name, verb, len(evals), "" if len(evals) == 1 else "s"), span)
+        # (2) depth bookkeeping
+        key = "%s|%s|depth-bookkeeping" % (rule, name)
+        ups, downs = 0, 0
+        for bb, b in enumerate(f.blocks):
+            if b.get("cleanup"):
+                continue
+            for st in b["stmts"]:
+                rv = st["rv"]
+                if rv["k"] == "bin" and rv.get("op") in ("AddWithOverflow", "Add", "SubWithOverflow", "Sub"):
+                    if facts_const_int(rv["b"]) != 1 or rv.get("aty") != "usize":
+                        continue
+                    g = shapes.guard_shapes(f, bb, None, depth=3)
+                    if rv["op"].startswith("Add") and any("is_quasiquote(" in x and x.endswith("=T") for x in g):
+                        ups += 1
+                    if rv["op"].startswith("Sub") and any("is_unquote(" in x and x.endswith("=T") for x in g) \
+                            and any(re.match(r"\(Eq \S+ c:0\)=F$", x) for x in g):
+                        downs += 1
+        if ups and downs:
+            rep.ok(rule, key, "%s raises the nesting depth under is_quasiquote and lowers it under a nested unquote" % name, span)
+        else:
+            rep.fail(rule, key, "%s does not %s: nested quasiquote levels are not tracked, so an inner template's unquote is "
+                     "treated at the wrong level" % (name, "raise the depth under an is_quasiquote test" if not ups else
+                                                     "lower the depth at an unquote met at depth > 0"), span)
+        # (3) container variants
+        sws = disc_switches(facts, f, "marwood::cell::Cell")
+        for var in ("Pair", "Vector"):
+            key = "%s|%s|descends-into-%s" % (rule, name, var)
+            region = set()
+            for sw in sws:
+                region |= arm_region(f, sw, var)
+            pat_t = "is_%s(" % var.lower()
+            hit = [bb for bb in feeds if bb in region or any(pat_t in x and x.endswith("=T") for x in guards[bb])]
+            if hit:
+                rep.ok(rule, key, "%s descends into %s templates (%d site%s)" % (name, var, len(hit), "" if len(hit) == 1 else "s"), span)
+            else:
+                rep.fail(rule, key, "%s has no descent guarded by a %s test: an unquoted expression inside a %s template is "
+                         "evaluated by compile_quasiquote but this walk never reaches it" % (name, var, var.lower()), span)
+        # (4) cdr chain positions
+        key = "%s|%s|unquote-in-tail-position" % (rule, name)
+        loops = _natural_loops(f)
+        n = 0
+        bad = None
+        for h, body in loops:
+            cs = [(bb, callee(t) or "") for bb, t in calls if bb in body]
+            if not any(c == "marwood::cell::Cell::cdr" for bb, c in cs):
+                continue
+            if not any(bb in body for bb in feeds):
+                continue
+            n += 1
+            if not any(c == "marwood::cell::Cell::is_unquote" for bb, c in cs):
+                bad = h
+        if bad is not None:
+            rep.fail(rule, key, "%s walks the cdr chain of a template element by element without testing each position for "
+                     "unquote: `(a . ,b) reads as (a unquote b), and the walk treats `unquote` and `b` as two literal elements" % name,
+                     [loc_of(f, bad)])
+        else:
+            rep.ok(rule, key, "%s: %s" % (name, "every element-wise walk of a cdr chain tests each position for unquote (%d loop%s)" % (
+                n, "" if n == 1 else "s") if n else "the cdr of a pair is handed back to the walk as a template of its own"), span)
+
+
+def facts_const_int(op):
+    c = op.get("const") if isinstance(op, dict) else None
+    if c is None:
+        return None
+    v = c.get("int")
+    try:
+        return int(v)
+    except (TypeError, ValueError):
+        return None
+
+
+def loc_of(f, bb):
+    t = f.blocks[bb]["term"]
+    return t.get("loc") or f.span
+
+
 def run(ctx, rep):
     r01a(ctx, rep)
     rep.rule("R01c", "CALL/TCALL twin agreement: the builtin, continuation and non-procedure sub-arms of the CallAcc and "
@@ -444,6 +586,7 @@ def run(ctx, rep):
     r01i(ctx, rep)
     r01j(ctx, rep)
     r01m(ctx, rep)
+    r01n(ctx, rep)
     from . import C02
     borrow(ctx, rep, "R01k", "lexical addressing is part of evaluation: C02's rules on the binding map order (R02c), the scan working on "
            "copies of the bound set (R02d), ENTER installing a per-activation environment (R02e) and load/store symmetry (R02b), "
